@@ -221,6 +221,10 @@ SHAPES = [  # one event / one state / both: the shapes that used to crash
          events=[dict(rate="beta", kind="const", trans=[dict(ty="B", o=None, d=0, mag="1")])]),
     dict(states=["S", "I"], params=["beta"], derived=[], decl="list", odes=[],
          events=[dict(rate="beta*S*I/(S+I)", kind="massaction", trans=[dict(ty="T", o=0, d=1, mag="1")])]),
+    # range-style declaration 'y1:3' with constant-rate deaths: every expanded state has the default lower limit 0
+    dict(states=["y1", "y2"], params=["beta", "gamma"], derived=[], decl="range", odes=[], _x0=[2, 2], _T=12.0,
+         events=[dict(rate="beta", kind="const", trans=[dict(ty="D", o=1, d=None, mag="1")]),
+                 dict(rate="gamma", kind="const", trans=[dict(ty="D", o=0, d=None, mag="2")])]),
     dict(states=["X"], params=["beta", "gamma"], derived=[], decl="list", odes=[],
          events=[dict(rate="beta", kind="const", trans=[dict(ty="B", o=None, d=0, mag="2")]),
                  dict(rate="gamma*X", kind="linear", trans=[dict(ty="D", o=0, d=None, mag="1")])]),
@@ -236,8 +240,9 @@ def drive(ck, pid, limits):
     cases = []
     for d in SHAPES:
         for exact in (True, False):
-            cases.append(dict(definition=d, x0=[6] * len(d["states"]), theta={p: 0.75 for p in d["params"]}, exact=exact,
-                              pre_tau=None, epsilon=0.03, seed=5, T=1.5))
+            dd = {k: v for k, v in d.items() if not k.startswith("_")}
+            cases.append(dict(definition=dd, x0=d.get("_x0", [6] * len(d["states"])), theta={p: 0.75 for p in d["params"]},
+                              exact=exact, pre_tau=None, epsilon=0.03, seed=5, T=d.get("_T", 1.5)))
     cases += [gen_case(rng, limits=limits) for _ in range(N)]
     coq_cases, dist = [], {}
     t_end = time.time() + ck.budget(110, 700)
